@@ -50,8 +50,15 @@ def gen(g, count, dense):
             ents.insert(0 if r.random() < 0.6 else len(ents), (long_name, g.qty_exact()))
             log[at] = (log[at][0], ents, log[at][2])
         files = base_files(g, book, log)
-        for path, args, s in CMDS:
-            kind = ' '.join(path + list(s))
+        # a file with malformed lines: lint's report is then one line per problem, written without a buffer
+        from .C09 import planted
+        recs = [g.render_record(d.strftime('%Y/%m/%d').encode(), ents, ns, True) for d, ents, ns in log[:4]]
+        for _ in range(r.randint(1, 4)):
+            rec = r.choice(recs)
+            rec.insert(r.randint(1, len(rec)), planted(g)[0])
+        files[b'bad.yaml'] = g.render_file(recs, True)
+        for path, args, s in CMDS + [(['lint'], ('bad.yaml',), {}), (['lint'], ('bad.yaml',), {'silent': True})]:
+            kind = ' '.join(path + list(s) + (['bad.yaml'] if args == ('bad.yaml',) else []))
             base = app(path, files, args=args, s=s, kind=kind, disk=(path == ['stats']))
             base.meta['role'] = 'base'
             base.meta['dense'] = dense and not big
